@@ -373,14 +373,27 @@ func report(cfg *config, e *Engine, results []*funcResult, tLoad, tGen, tSolve, 
 	if cfg.updateBaseline {
 		// aggregated site keys enter the baseline only if every site of that kind in the function was proved
 		failedKey := map[string]bool{}
+		slowName := map[string]bool{}
 		for _, r := range rows {
 			if r.Kind != "cover" && r.Kind != "canary" && r.Status != "unsat" && r.Status != "trivial" {
 				failedKey[baseKey(r.Name)] = true
 			}
+			// admission rule: an obligation enters the baseline (= is claimed, and alarms when it stops proving) only if
+			// every instance discharged in well under the quick timeout, so that solver jitter on another machine cannot
+			// raise an alarm on the unchanged tree
+			for _, o := range r.inst {
+				if o.Time > float64(cfg.timeout)/2 {
+					slowName[r.Name] = true
+					failedKey[baseKey(r.Name)] = true
+				}
+			}
+		}
+		for n := range slowName {
+			fmt.Printf("NOTE: not admitted to the baseline (slow, > %ds): %s\n", cfg.timeout/2, n)
 		}
 		keys := map[string]bool{}
 		for _, n := range proved {
-			if k := baseKey(n); !failedKey[k] {
+			if k := baseKey(n); !failedKey[k] && !slowName[n] {
 				keys[k] = true
 			}
 		}
